@@ -52,6 +52,10 @@ CHECKS = {
    text="The C08 workload plus Stats callers and faults: Stop or parent-context cancel at a tape-chosen step (idle, mid-dispatch, mid-publish, with backlog), caller-context cancellation inside Publish / Subscribe / Unsubscribe / Stats, Wait started before as well as after Stop, subscribers that stop receiving once Unsubscribe returned. While the broker is live and subscribers receive, quiescence must show no pending Publish/Subscribe/Unsubscribe/Stats and complete delivery; after Stop/cancel: Stop returned, Wait returned, every caller returned once its own context was cancelled, and no task spawned inside pubsub/fun is alive.",
    note="Same Deque livelock limitation as C08. The delivery clause for subscribers that unsubscribed belongs to C08 and is not re-judged here.",
    tech=TECH + "; fault families (stop/cancel/stats-cancel/wait-order) with quiescence and task-table oracles"),
+ "C10": dict(cat="fault_enumeration", ref="§2 C10",
+   text="A Service with harness phases whose outcomes are drawn per run from {Run: ok/error/panic} x {Shutdown: absent/ok/error/panic} x {Cleanup: absent/ok/error/panic} x {ErrorHandler present/absent} x termination mode {Run returns by itself, Close, parent cancel at a tape-chosen step}, with 1-3 concurrent starters, 1-2 waiters per successful start and extra closers, under seeded schedules (the two windows the property names - before the isRunning decision and before the completion stores - are ordinary gates). Oracle, a lifecycle automaton over the phase log: Run at most once; exactly one Start returns nil, the others ErrServiceAlreadyStarted/ErrServiceReturned; Shutdown once and only after the service context ended; Cleanup once, after Run and Shutdown returned; ErrorHandler at most once, after Cleanup, non-nil; a Wait invoked after a successful Start returns only after the last phase, carries every phase error and ErrRecoveredPanic, is nil otherwise, and Running() is false afterwards; no service goroutine survives.",
+   note="'Shutdown only after the service context ended' can be judged only once Run has been handed that context. The outcome matrix is sampled from the tape, not enumerated cell by cell; reached cells are reported as distinct_states.",
+   tech=TECH + "; phase outcome x termination mode matrix, lifecycle automaton over the phase call log"),
 }
 NA = [
  ("C16", "dt.List/dt.Stack are single-goroutine data structures: the property quantifies over operation sequences only; there is no schedule, clock, fault or interleaving for a simulator to own (pure model-based testing target)."),
